@@ -418,6 +418,16 @@ def n2(ctx):
             if r[0] == "discr" and role_mentions_call(r[1], "get"):
                 none_e += C.variant_edges(o, sb, 0)
         ok = bool(none_e) and o.dominated_by(ad[0].bb, none_e)
+    # the numbering step is total: a binder may re-number a name that an outer scope has already numbered (shadowing — D3 saves and
+    # restores the outer entry around it), so add_slot must not refuse an already-seen name, also not in `checks` builds
+    from .c18 import panic_sites
+    for cfgname in ("default", "checks"):
+        cr = ctx.lib(cfgname)
+        for fb in cr.free_fn("add_slot", "lang::"):
+            ps = [(sub_, bi_, k_) for sub_, bi_, k_, _ in panic_sites(cr, fb) if not k_.startswith("assert:overflow")]
+            ctx.check(not ps, "numbering-step-total:" + cfgname, "add_slot has no panic path besides counter overflow (%s)" % cfgname,
+                      "add_slot can panic (%s) in the %s configuration: Bind::weak_shape_impl calls it for a binder whose name is already numbered in an outer scope (shadowing), so a node that shadows a name cannot be shaped while its alpha-variant can" % (", ".join(sorted({k_ for _, _, k_ in ps})), cfgname),
+                      where_of(fb))
     ctx.check(ok, "see-reuses-or-numbers", "on_see_slot reuses the number recorded for the slot, otherwise numbers it", "on_see_slot no longer reuses the recorded number / numbers only unseen slots", where_of(o))
 
 
